@@ -22,6 +22,7 @@ import (
 	"time"
 
 	"com.tuntun.rangers/node/src/core"
+	"com.tuntun.rangers/node/src/middleware/db"
 	"com.tuntun.rangers/node/src/middleware/mysql"
 	"com.tuntun.rangers/node/src/middleware/types"
 
@@ -98,6 +99,58 @@ func addWithSQLLocked(gc core.GroupChain, g *types.Group) (added bool) {
 		}
 	}()
 	return gc.AddGroup(g) == nil
+}
+
+// forkSwitchWithTransientSQLLock runs the sync path's fork switch while a second connection holds
+// the write lock of the SQL side index for a little longer than the driver's busy timeout (5 s):
+// the first index statement of the switch fails with "database is locked", later ones succeed.
+// Whatever the code does with that failure (the unchanged code panics out of remove after the top
+// group is completely removed), the caller judges the chain afterwards.
+func forkSwitchWithTransientSQLLock(anc *types.Group, branch []*types.Group) (panicked bool) {
+	lockDB, err := sql.Open("sqlite3", "file:storage0/logs/logs.db?mode=rwc&_journal_mode=WAL")
+	if err != nil {
+		core.VerifGroupForkSwitch(anc, branch)
+		return false
+	}
+	defer lockDB.Close()
+	conn, err := lockDB.Conn(context.Background())
+	if err != nil {
+		core.VerifGroupForkSwitch(anc, branch)
+		return false
+	}
+	defer conn.Close()
+	if _, err := conn.ExecContext(context.Background(), "BEGIN IMMEDIATE"); err != nil {
+		core.VerifGroupForkSwitch(anc, branch)
+		return false
+	}
+	done := make(chan bool, 1)
+	go func() {
+		defer func() { done <- recover() != nil }()
+		core.VerifGroupForkSwitch(anc, branch)
+	}()
+	select {
+	case p := <-done: // finished (or failed) while the lock was still held
+		conn.ExecContext(context.Background(), "ROLLBACK")
+		return p
+	case <-time.After(6500 * time.Millisecond):
+	}
+	conn.ExecContext(context.Background(), "ROLLBACK")
+	return <-done
+}
+
+// linearBranch builds nb groups above anc, each linking to its predecessor.
+func linearBranch(rng *rand.Rand, anc *types.Group, h, nb, op int, parentOf func(int) []byte) []*types.Group {
+	var branch []*types.Group
+	pre := anc.Id
+	for i := 0; i < nb; i++ {
+		g := newGroup(rng, pre, parentOf(rng.Intn(h+1)), uint64(10+op))
+		g.Header.CreateBlockHash = core.GetBlockChain().TopBlock().Hash.Bytes()
+		g.Header.Hash = g.Header.GenHash()
+		g.GroupHeight = uint64(h + 1 + i)
+		branch = append(branch, g)
+		pre = g.Id
+	}
+	return branch
 }
 
 type walker struct {
@@ -318,6 +371,93 @@ func child(args []string) {
 				}
 				if !complete {
 					r.Count("fork_switches_nonlinear", 1)
+				}
+			}
+		case op == 5 && len(ref.List) >= 3 && rng.Intn(100) < 10: // fork switch of depth >= 2 while the SQL side index is locked for the first statement only
+			h := rng.Intn(len(ref.List) - 2)
+			anc := gc.GetGroupByHeight(uint64(h))
+			if anc == nil {
+				continue
+			}
+			old := append([]string{}, ref.List...)
+			branch := linearBranch(rng, anc, h, 1+rng.Intn(2), op, listedID)
+			logop(fmt.Sprintf("fork-switch-with-transient-sql-lock ancestor=%d branch=%d", h, len(branch)))
+			if forkSwitchWithTransientSQLLock(anc, branch) {
+				r.Count("sql_fault_fork_switch_panicked", 1)
+			}
+			r.Count("sql_fault_fork_switches", 1)
+			// allowed outcomes: the switch stopped after removing j groups from the top (0 <= j <= depth),
+			// or after the complete removal and m of the branch groups (a state the chain passes
+			// through anyway); anything else is a broken chain
+			var cands [][]string
+			for j := 0; j <= len(old)-1-h; j++ {
+				cands = append(cands, old[:len(old)-j])
+			}
+			full := append([]string{}, old[:h+1]...)
+			for _, g := range branch {
+				full = append(full, hx(g.Id))
+				cands = append(cands, append([]string{}, full...))
+			}
+			matched := false
+			if last := gc.LastGroup(); last != nil {
+				for _, c := range cands {
+					if uint64(len(c)) == gc.Count() && c[len(c)-1] == hx(last.Id) {
+						ref.List, matched = c, true
+						break
+					}
+				}
+			}
+			if !matched {
+				k.fail("C19:fault:fork-switch-left-no-prefix-state", fmt.Sprintf("after a fork switch (ancestor %d, %d groups above it, branch %d) whose first SQL index statement failed, Count()=%d and the last group are not those of any state the switch passes through", h, len(old)-1-h, len(branch), gc.Count()))
+			}
+		case rng.Intn(100) < 5 && len(ref.List) >= 2: // peers ask for groups (unlocked sync-server lookup) while a fork switch replaces those heights; physical writes are delayed at random
+			h := rng.Intn(len(ref.List) - 1)
+			anc := gc.GetGroupByHeight(uint64(h))
+			if anc == nil {
+				continue
+			}
+			branch := linearBranch(rng, anc, h, 1+rng.Intn(3), op, listedID)
+			logop(fmt.Sprintf("fork-switch-vs-peer-requests ancestor=%d branch=%d", h, len(branch)))
+			drng := rand.New(rand.NewSource(rng.Int63()))
+			var dmu sync.Mutex
+			db.VerifWriteHook = func(kind string, key []byte) {
+				dmu.Lock()
+				x, y := drng.Intn(100), drng.Intn(1000)
+				dmu.Unlock()
+				switch {
+				case x < 12:
+					time.Sleep(time.Duration(5000+25*y) * time.Microsecond)
+				case x < 35:
+					time.Sleep(time.Duration(100+2*y) * time.Microsecond)
+				}
+			}
+			atomic.StoreInt32(&slowCheck, 1)
+			var stop int32
+			var served int64
+			var wg sync.WaitGroup
+			top := len(ref.List) + len(branch)
+			for p := 0; p < 3; p++ {
+				wg.Add(1)
+				go func(p int) {
+					defer wg.Done()
+					for i := 0; atomic.LoadInt32(&stop) == 0; i++ {
+						core.VerifServeGroupRequest(uint64(h + (i+p)%(top-h+1)))
+						atomic.AddInt64(&served, 1)
+					}
+				}(p)
+			}
+			forkErr, _ := core.VerifGroupForkSwitch(anc, branch)
+			atomic.StoreInt32(&stop, 1)
+			wg.Wait()
+			atomic.StoreInt32(&slowCheck, 0)
+			db.VerifWriteHook = nil
+			r.Count("concurrent_episodes", 1)
+			r.Count("fork_switches_with_peer_requests", 1)
+			r.Count("peer_requests_served_during_fork_switch", served)
+			if forkErr == nil {
+				ref.List = ref.List[:h+1]
+				for _, g := range branch {
+					ref.List = append(ref.List, hx(g.Id))
 				}
 			}
 		case sqlFaultDue(rng, op): // the SQL side index cannot be written while the group is added
